@@ -366,6 +366,88 @@ def h6(ctx, rid):
         raise core.AnchorLost('next_blob_id uses: %d' % n)
 
 
+def h6d(ctx, rid):
+    """in read_blobs the id parsed from the name of a blob that failed to open is merged into max_blob_id on every path through the
+    error arm (ignored, quarantined or propagated) - not only when the blob is quarantined"""
+    prog = ctx.prog
+    f = prog.body_of('storage::core::Storage::<K>::read_blobs')
+    if f is None:
+        raise core.AnchorLost('read_blobs')
+    key = 'failed-id-on-every-error-path|storage::core::Storage::<K>::read_blobs'
+    ids = [c for c in f.calls if c.target == 'blob::file_name::FileName::id']
+    if not ids:
+        ctx.bad(rid, key, f.where(), 'the id of a blob that failed to open is not taken from its file name at all')
+        return
+    # update blocks: assignments whose value originates in such an id() call and whose destination is the max-id accumulator
+    upd = set()
+    for i, b in enumerate(f.blocks):
+        if b['c'] or i not in f.reachable():
+            continue
+        for s in b['s']:
+            if s['k'] == 'a' and not s['d'][1]:
+                nm = f.debug_name(s['d'][0])
+                if nm and 'max' in nm and any(o.kind == 'call' and o.data.target == 'blob::file_name::FileName::id' for o in core.origins(f, s['d'][0]) if True):
+                    if any(p[0] != s['d'][0] or True for p in core.rvalue_places(s['r'])):
+                        ogs = []
+                        for o in core.rvalue_operands(s['r']):
+                            ogs += core.origins(f, o)
+                        if any(o.kind == 'call' and o.data.target == 'blob::file_name::FileName::id' for o in ogs):
+                            upd.add(i)
+        t = b['t']
+        if t['k'] == 'call':
+            c = f.call_at(i)
+            nm = f.debug_name(c.dest[0]) if not c.dest[1] else None
+            if nm and 'max' in nm and c.name == 'max':
+                ogs = []
+                for a in c.args:
+                    ogs += core.origins(f, a)
+                if any(o.kind == 'call' and o.data.target == 'blob::file_name::FileName::id' for o in ogs):
+                    upd.add(i)
+    # the error arm: Err edge of the switch on the per-blob open result
+    err_entries = []
+    for j in f.reachable():
+        t = f.blocks[j]['t']
+        if t['k'] != 'switch':
+            continue
+        l = op_local(t['o'])
+        for (bb, si, kind, r) in f.defs().get(l, []):
+            if kind == 'assign' and r['k'] == 'discr':
+                ty = core.place_type_str(f, r['p']) or ''
+                if ty.startswith('std::result::Result<blob::core::Blob<'):
+                    for v, tg in t['vals']:
+                        if v == 1:
+                            err_entries.append(tg)
+    if not err_entries or not upd:
+        ctx.bad(rid, key, ids[0].where(), 'error arm / id accumulation not found (arms: %d, updates: %d)' % (len(err_entries), len(upd)))
+        return
+    # excuse: the file name could not be parsed (Err edge of FileName::from_path)
+    excuse = []
+    for c in f.calls:
+        if c.name == 'from_path' and 'FileName' in c.path:
+            carry = core.result_flow(f, c)
+            for j in f.reachable():
+                t = f.blocks[j]['t']
+                if t['k'] == 'switch':
+                    l = op_local(t['o'])
+                    for (bb, si, kind, r) in f.defs().get(l, []):
+                        if kind == 'assign' and r['k'] == 'discr' and r['p'][0] in carry:
+                            for v, tg in t['vals']:
+                                if v == 1:
+                                    excuse.append(tg)
+                            if all(v == 0 for v, _ in t['vals']):
+                                excuse.append(t['otherwise'])
+    # sinks of the arm: things that happen to the failed blob (log-and-skip, quarantine, propagate)
+    saves = [c.bb for c in f.calls if c.name == 'save_corrupted_blob']
+    ign = [c.bb for c in f.calls if c.name == 'ignore_corrupted']
+    reach = f.reach_from(err_entries, avoid_exit=list(upd), avoid_enter=excuse)
+    late = [b for b in saves + ign if b in reach]
+    if late:
+        ctx.bad(rid, key, f.where(late[0]), 'on some path through the error arm (e.g. ignore_corrupted) the failed blob\'s id is not merged into max_blob_id before the blob is skipped/quarantined: next_blob_id can point at an id whose file is still in the directory',
+                witness=['bb%d %s' % (b, f.where(b)) for b in (f.path(err_entries, late, avoid_exit=list(upd), avoid_enter=excuse) or [])])
+    else:
+        ctx.ok(rid, key, ids[0].where(), 'the id of the failed blob is merged into max_blob_id before any of ignore / quarantine / propagate')
+
+
 def h7(ctx, rid):
     prog = ctx.prog
     n = 0
@@ -414,5 +496,6 @@ RULES = [
     Rule('C07.H4', 'truncating create, remove and index-file creation act on paths derived from with_extension("index")', h4, 4),
     Rule('C07.H5', 'the call-graph closure of every query entry point contains no file mutator', h5, len(QUERY_ENTRIES)),
     Rule('C07.H6', 'next_blob_id is only loaded / fetch_add-ed; stores happen under &mut Storage and include failed-blob and quarantine-directory ids', h6, 3),
+    Rule('C07.H6d', 'the id of a blob that failed to open is accounted on every path of the error arm of read_blobs', h6d, 1),
     Rule('C07.H7', 'the quarantined blob path flows only into rename as source; destination is joined onto the quarantine dir', h7, 1),
 ]
